@@ -17,7 +17,7 @@ import (
 
 func init() {
 	PropertyText["C18"] = [2]string{
-		"Decides: the refusal of checkThreshold depends on the free space through exactly one comparison free < T whose threshold T has no data or control dependence on free, refusing on its true side — so for fixed volume and setting the accept set is upward closed in free, for all inputs, by shape (R-DISK-MONOTONE); T is minSpaceRequired·GiB when the operator gave a value, else 50 GiB·total/256 GiB for volumes ≤ 256 GiB, else 50 GiB, with the exact constants (R-DISK-FORMULA); CheckDiskUsage passes statfs total/available and the configured value in the right slots, start-up refuses on its error before any stage starts, and the watcher pauses exactly on (error ∧ not paused) and resumes exactly on (no error ∧ paused), keeping its flag in step (R-DISK-USE).",
+		"Decides: the refusal of checkThreshold depends on the free space through exactly one comparison free < T whose threshold T has no data or control dependence on free, refusing on its true side — so for fixed volume and setting the accept set is upward closed in free, for all inputs, by shape (R-DISK-MONOTONE); T is minSpaceRequired·GiB when the operator gave a value, else 50 GiB·total/256 GiB for volumes ≤ 256 GiB, else 50 GiB, with the exact constants (R-DISK-FORMULA); CheckDiskUsage passes statfs total/available and the configured value in the right slots, start-up refuses on its error before any stage starts, and the watcher pauses exactly on (error ∧ not paused) and resumes exactly on (no error ∧ paused), keeping its flag in step (R-DISK-USE). The operator's value reaches the check unchanged: float64 flag, float64 config field bound to it, no rewrite of the key (R-DISK-SETTING). The watcher's ticker arm is evaluated exhaustively over (check result, paused) with helpers inlined and must equal the specification table (R-DISK-USE/table).",
 		"Not decided: float64 rounding at the boundary (uint64(threshold) truncation, 2^53 precision) — a numeric question; statfs semantics.",
 	}
 	register(&core.Rule{ID: "R-DISK-MONOTONE", Props: []string{"C18"}, Doc: "checkThreshold: exactly one branch condition depends on `free`, it is free < T with T independent of free, errors are returned only on its true side and nil only on its false side", Run: ruleDiskMonotone})
